@@ -401,6 +401,16 @@ func checkC03(R *Run) {
 	R.note("map accesses checked: " + strings.Join(fields, ", ") + ".")
 
 	// ---- lock-release
+	var guardedRoots []*ssa.Function
+	for _, n := range []string{"(*hotline.Server).handleNewConnection", "(*hotline.Server).handleFileTransfer"} {
+		if f := P.fn(n); f != nil {
+			guardedRoots = append(guardedRoots, f)
+		}
+	}
+	for _, reg := range R.registeredHandlers() {
+		guardedRoots = append(guardedRoots, reg.Fn)
+	}
+	guardedReach := P.reachFuncs(guardedRoots...)
 	nLocks := 0
 	orderEdges := map[string]map[string]string{}
 	for _, fn := range P.Funcs {
@@ -470,7 +480,13 @@ func checkC03(R *Run) {
 				if relock {
 					why += "; it can be taken again while still held"
 				}
-				R.check(ok2 && !relock, "lock-release", construct, P.ipos(ins), "released on every path before the function exits or locks again", why)
+				if ok2 && !relock && guardedReach[rootFn(fn)] {
+					if pi := mayPanicInSection(P, fn, ins, id); pi != nil {
+						ok2 = false
+						why = "the section between this Lock and its explicit Unlock contains an operation that can panic at " + P.ipos(pi) + " (" + describePanicSite(pi) + "); the connection's recover swallows the panic but the mutex stays locked, so every later caller blocks forever — use defer Unlock or make the section panic-free"
+					}
+				}
+				R.check(ok2 && !relock, "lock-release", construct, P.ipos(ins), "released on every path before the function exits or locks again; the explicitly unlocked section cannot panic", why)
 			}
 		}
 	}
@@ -782,3 +798,127 @@ func (P *Prog) reachFromGo() map[*ssa.Function]bool {
 }
 
 func init() { register("C03", checkC03) }
+
+// mayPanicInSection looks, between a Lock and the matching explicit Unlock, for an operation that can panic:
+// a dereference of a pointer that came out of a map lookup or call without a nil test, an index with a
+// non-constant bound, an unchecked type assertion, or a call into other repo code.
+func mayPanicInSection(P *Prog, fn *ssa.Function, lock ssa.Instruction, id LockID) ssa.Instruction {
+	type st struct {
+		b   *ssa.BasicBlock
+		idx int
+	}
+	seen := map[*ssa.BasicBlock]bool{}
+	work := []st{{lock.Block(), instrIndex(lock) + 1}}
+	nilChecked := func(v ssa.Value, at *ssa.BasicBlock) bool {
+		ok := false
+		factEdges(fn, func(e Edge, f Fact) {
+			if f.Kind == "nil" && !f.Holds && f.V == v && (e.To == at && len(at.Preds) == 1 || edgeDominates(fn, e, at)) {
+				ok = true
+			}
+			// comma-ok lookup: `x, ok := m[k]; if !ok { return }`
+			if f.Kind == "truth" && f.Holds {
+				if ex, isEx := f.V.(*ssa.Extract); isEx && ex.Index == 1 {
+					if ev, isEv := v.(*ssa.Extract); isEv && ev.Tuple == ex.Tuple && (e.To == at && len(at.Preds) == 1 || edgeDominates(fn, e, at)) {
+						ok = true
+					}
+				}
+			}
+		})
+		return ok
+	}
+	for len(work) > 0 {
+		s := work[len(work)-1]
+		work = work[:len(work)-1]
+		stop := false
+		for i := s.idx; i < len(s.b.Instrs); i++ {
+			ins := s.b.Instrs[i]
+			if cx, ok := ins.(ssa.CallInstruction); ok {
+				if _, isDefer := ins.(*ssa.Defer); !isDefer {
+					if id3, op3, ok3 := P.lockOp(fn, cx.Common()); ok3 && op3 == "unlock" && id3 == id {
+						stop = true
+						break
+					}
+				}
+			}
+			switch x := ins.(type) {
+			case *ssa.FieldAddr:
+				// dereference of a pointer loaded from a map / returned by a call, not nil-tested
+				base := x.X
+				switch b := base.(type) {
+				case *ssa.Lookup:
+					if _, isPtr := b.Type().Underlying().(*types.Pointer); isPtr && !nilChecked(b, x.Block()) {
+						return x
+					}
+				case *ssa.Extract:
+					if _, isLk := b.Tuple.(*ssa.Lookup); isLk {
+						if _, isPtr := b.Type().Underlying().(*types.Pointer); isPtr && !nilChecked(b, x.Block()) {
+							return x
+						}
+					}
+				}
+			case *ssa.TypeAssert:
+				if !x.CommaOk {
+					return x
+				}
+			case *ssa.IndexAddr:
+				if _, isConst := x.Index.(*ssa.Const); !isConst {
+					if _, isArrPtr := x.X.Type().Underlying().(*types.Pointer); !isArrPtr {
+						if _, fromRange := x.Index.(*ssa.BinOp); !fromRange { // range loops index with the loop counter
+							return x
+						}
+					}
+				}
+			case *ssa.Call:
+				if cal, ok := x.Call.Value.(*ssa.Function); ok && cal.Blocks != nil && P.isRepoPkg(pkgOf(cal)) {
+					if id2, _, isLock := P.lockOp(fn, &x.Call); !isLock {
+						_ = id2
+						if len(cal.Blocks) > 1 || containsDeref(cal) {
+							return x
+						}
+					}
+				}
+			case *ssa.Panic:
+				if x.Pos().IsValid() {
+					return x
+				}
+			}
+		}
+		if stop {
+			continue
+		}
+		for _, n := range s.b.Succs {
+			if !seen[n] {
+				seen[n] = true
+				work = append(work, st{n, 0})
+			}
+		}
+	}
+	return nil
+}
+
+func containsDeref(fn *ssa.Function) bool {
+	found := false
+	eachInstr(fn, func(ins ssa.Instruction) {
+		switch ins.(type) {
+		case *ssa.Lookup, *ssa.TypeAssert, *ssa.Panic:
+			found = true
+		}
+	})
+	return found
+}
+
+func describePanicSite(ins ssa.Instruction) string {
+	switch x := ins.(type) {
+	case *ssa.FieldAddr:
+		return "field access through a pointer taken from a map lookup without a nil test"
+	case *ssa.TypeAssert:
+		return "unchecked type assertion"
+	case *ssa.IndexAddr:
+		return "index with a non-constant bound"
+	case *ssa.Call:
+		return "call of " + calleeName(&x.Call)
+	case *ssa.Panic:
+		return "explicit panic"
+	}
+	return "operation that can panic"
+}
